@@ -48,6 +48,14 @@ SPECS = {
         search=False,
         explanation="histories of op/3 calls: outcome of every call and the whole table after every call compared with the model; ISO restrictions and failed-call-is-noop evaluated on the enumerated table; reader probed",
     ),
+    "C12": dict(
+        level="proof", props_deps=["Proofs/Solutions.v"], model_deps=["Model/SolutionsCheck.v"],
+        trusted=COMMON_TRUSTED + ["hand-written handshake model Model/Solutions.v under run-to-block semantics; Go channels, scheduler and memory model are not modelled"],
+        assumptions=["the search for the next answer terminates (producers are finite or deliver answers for ever)",
+                     "a call that has not returned within 300 ms is counted as blocked"],
+        search=False,
+        explanation="exhaustive over scripts of Next/Scan/Err/Close up to the length bound x producers; every call under a watchdog; results compared with the model; goals after Close, goroutines and interleaved iterations checked directly",
+    ),
     "C03": dict(
         level="proof", props_deps=["Proofs/Promise.v", "Proofs/Trampoline.v"], model_deps=ENGINE_MODEL_DEPS, trusted=ENGINE_TRUSTED,
         assumptions=["cut placements outside the property's quantifier (a cut nested in a non-top-level disjunction, in a then/else branch or under a left-nested conjunction) are not generated"],
